@@ -107,7 +107,10 @@ def c01_py_kernels(prop="C01", tier="quick", seed=0, **kw):
         for k in PRIMS:
             jobs.append(_job("h_prim_write", "prim.write:%s:N%d" % (k, N), b, kind=k, N=N))
             for m in modes:
-                jobs.append(_job("h_prim_read", "prim.read:%s:N%d:%s" % (k, N, m), b, kind=k, N=N, mode=m))
+                kk = k
+                if quick and m == "short" and k in ("uvarint", "svarint"):
+                    kk = k + "16"   # quick: short-read schedules on <= 3-byte varints; thorough: full 64-bit
+                jobs.append(_job("h_prim_read", "prim.read:%s:N%d:%s" % (kk, N, m), b, kind=kk, N=N, mode=m))
         jobs.append(_job("h_bytes", "bytes:N%d:full" % N, b, N=N, mode="full"))
         jobs.append(_job("h_bytes", "bytes:N%d:short" % N, b, N=N, mode="short"))
         jobs.append(_job("h_bytes", "bytes.direct:N%d" % N, b, N=N, mode="full", direct=True))
@@ -116,7 +119,7 @@ def c01_py_kernels(prop="C01", tier="quick", seed=0, **kw):
         jobs.append(_job("h_ser_write", "ser.write:%s" % tname(t), b, t=t, N=N, maxlen=maxlen))
         if t[0] in ("time", "datetime"):
             continue   # read side builds numpy datetime64/timedelta64 from the decoded int: not symbolic (see limitations)
-        for m in (modes if not quick or t in SCALARS[:10] else ["full"]):
+        for m in (modes if not quick or t[0] in ("int8", "uint8", "int16", "uint16", "bool") else ["full"]):
             jobs.append(_job("h_ser_read", "ser.read:%s:%s" % (tname(t), m), b, t=t, N=N, mode=m, maxlen=maxlen))
     for t, v in STREAMS:
         jobs.append(_job("h_ser_write", "ser.write:%s/%s" % (tname(t), v), b, t=t, N=N, maxlen=maxlen, variant=v))
@@ -131,7 +134,177 @@ def c01_py_kernels(prop="C01", tier="quick", seed=0, **kw):
     return _run("c01_py_kernels", prop, jobs, bounds, expected)
 
 
-FUNCS = {"c01_py_kernels": c01_py_kernels}
+def c03_py_capacity(prop="C03", tier="quick", seed=0, **kw):
+    quick = tier != "thorough"
+    Ns = [16] if quick else [16, 24, 32]
+    b = 25 if quick else 200
+    maxlen = 2 if quick else 3
+    cases = ["end_stream", "uvarint", "svarint", "optional_numpy", "optional", "optional_str", "union", "union_null", "stream", "stream/generator",
+             "stream_opt/generator", "vector", "map", "string", "record"] + ["struct:" + k for k in ("bool", "int8", "uint8", "fixed_int32", "f32", "f64", "c32", "c64")]
+    jobs = []
+    for N in Ns:
+        for c in cases:
+            j = _job("h_c03", "c03:%s:N%d" % (c, N), b, case=c, N=N, maxlen=maxlen)
+            j["hooks"] = K + "install_c03_hooks"
+            jobs.append(j)
+    # one obligation per call site of write_byte_no_check in the current working tree (syntactic
+    # enumeration of the sites only; each obligation itself is the semantic 0 <= _offset < len(_buffer))
+    from harness.py import kernels as HK
+    sites = E._scan_sites(os.path.join(E.STATIC, "_binary.py"))
+    expected = [HK.PACK_OBL, "c03.offset-invariant", "c03.harness-completed"]
+    for q, calls in sorted(sites.items()):
+        for name, ln, end, k in calls:
+            if name == "write_byte_no_check":
+                expected.append(HK.c03_ids("%s#%d" % (q, k))[0])
+    bounds = {"buffer_size_N": Ns, "container_len_max": maxlen, "job_budget_s": b}
+    return _run("c03_py_capacity", prop, jobs, bounds, expected)
+
+
+TRUNC_SEQS = [
+    [["prim", "uvarint"]], [["prim", "svarint"]], [["prim", "byte"]], [["prim", "bool"]], [["prim", "fixed_int32"]], [["prim", "f64"]], [["prim", "c64"]],
+    [["int16"]], [["uint64"]], [["string", ["", "a", "0123456789abcdefXYZ"]]], [["optional", ["int16"]]], [["union", [None, ["uint8"], ["bool"]]]],
+    [["vector", ["uint8"]]], [["fixedvector", ["int8"], 3]], [["map", ["uint8"], ["bool"]]], [["enum", ["int32"], [0, 1, 5]]],
+    [["record", [["int16"], ["optional", ["uint8"]]]]], [["stream", ["uint8"]]], [["stream", ["optional", ["int8"]]]], [["date"]],
+    [["int16"], ["f32"], ["string", ["", "ab"]]], [["prim", "fixed_int32"], ["prim", "fixed_int32"]], [["vector", ["uint8"]], ["optional", ["int16"]]],
+    [["stream", ["uint8"]], ["uint8"]], [["bool"], ["uint32"], ["int8"]],
+]
+
+
+def c16_py_truncation(prop="C16", tier="quick", seed=0, **kw):
+    quick = tier != "thorough"
+    Ns = [16] if quick else [16, 24]
+    modes = ["full"] if quick else ["full", "short"]
+    b = 40 if quick else 300
+    maxlen = 2 if quick else 3
+    jobs = []
+    for N in Ns:
+        for m in modes:
+            for ts in TRUNC_SEQS:
+                jobs.append(_job("h_trunc", "trunc:%s:N%d:%s" % ("+".join(tname(t) if t[0] != "prim" else "prim." + t[1] for t in ts), N, m), b, ts=ts, N=N, mode=m, maxlen=maxlen))
+    expected = ["trunc.outcome-is-an-exception", "trunc.error-is-EOFError", "trunc.no-error-before-the-cut", "trunc.normal-return-only-if-complete",
+                "trunc.delivered==written", "int80-exact"]
+    bounds = {"buffer_size_N": Ns, "refill_modes": modes, "values_per_stream": "1-3", "container_len_max": maxlen, "cut": "symbolic 0 <= c < total",
+              "unwinding": "readinto calls <= 40, symbolic loops <= 64 (reaching a cap = inconclusive)", "job_budget_s": b}
+    part = _run("c16_py_truncation", prop, jobs, bounds, expected)
+    # 'all-values-delivered' must be unreachable: it is a marker behind failed checks only
+    return part
+
+
+def _ref_lemmas(part):
+    """Reference-codec self-consistency, decided directly by z3 (no code under test involved): the
+    reference decoder inverts the reference encoder, so equal reference encodings <=> equal items."""
+    import z3
+    from spec import refcodec
+    t0 = time.time()
+    ob = {"id": "ref.lemma decode(encode(x))==x", "paths": 1, "queries": 0, "unsat": 0, "sat": 0, "unknown": 0}
+    for w in (8, 16, 32, 64):
+        x = z3.BitVec("x", w)
+        n, bs = refcodec.uvarint(x)
+        v, m, okk = refcodec.decode_uvarint(lambda i: bs[i] if i < len(bs) else z3.BitVecVal(0, 8), w, len(bs))
+        s = z3.Solver()
+        s.add(z3.Not(z3.And(v == x, m == n, okk)))
+        r = s.check()
+        ob["queries"] += 1
+        ob[str(r) if str(r) in ("sat", "unsat") else "unknown"] += 1
+        y = z3.BitVec("y", w)
+        s = z3.Solver()
+        s.add(refcodec.unzigzag(refcodec.zigzag(y)) != y)
+        r = s.check()
+        ob["queries"] += 1
+        ob[str(r) if str(r) in ("sat", "unsat") else "unknown"] += 1
+    ob["status"] = "holds" if ob["sat"] == 0 and ob["unknown"] == 0 else "inconclusive"
+    ob["note"] = "uvarint/zigzag at widths 8,16,32,64"
+    part["obligations"].append(ob)
+    for k in ("queries", "unsat", "sat", "unknown"):
+        part[k] += ob[k]
+    part["solver_s"] = round(part["solver_s"] + time.time() - t0, 3)
+
+
+BATCH_ITEMS = [["uint8"], ["int16"], ["optional", ["uint8"]], ["vector", ["uint8"]], ["union", [None, ["bool"], ["int8"]]], ["map", ["uint8"], ["bool"]]]
+
+
+def c17_py_batching(prop="C17", tier="quick", seed=0, **kw):
+    quick = tier != "thorough"
+    nmax = 3 if quick else 4
+    N = 16
+    b = 60 if quick else 400
+    modes = ["full"] if quick else ["full", "short"]
+    jobs = []
+    items = BATCH_ITEMS[:4] if quick else BATCH_ITEMS
+    for t in items:
+        # every varint leaf multiplies the paths by its byte length: 2-byte-and-more leaves get one item less
+        nm = nmax - 1 if t[0] in ("int16", "vector", "map") else nmax
+        for v in ("list", "generator", "iter", "tuple", "batches"):
+            jobs.append(_job("h_batch_write", "batch.write:%s/%s" % (tname(t), v), b, t_item=t, N=N, nmax=nm, variant=v))
+        for m in modes:
+            jobs.append(_job("h_batch_read", "batch.read:%s:%s" % (tname(t), m), b, t_item=t, N=N, mode=m, nmax=nm))
+    expected = ["batch.write-no-exception", "batch.bytes==reference(partition)", "batch.read-no-exception", "batch.items==written",
+                "batch.consumed==produced", "batch.items-are-fresh-objects", "int80-exact"]
+    bounds = {"buffer_size_N": [N], "items_max": "%d (%d for int16/vector/map items)" % (nmax, nmax - 1), "partitions": "every composition of n items (solver-chosen)", "refill_modes": modes, "job_budget_s": b}
+    part = _run("c17_py_batching", prop, jobs, bounds, expected)
+    _ref_lemmas(part)
+    return part
+
+
+def c15_py_header(prop="C15", tier="quick", seed=0, **kw):
+    quick = tier != "thorough"
+    b = 60 if quick else 300
+    jobs = [_job("h_header_binary", "header.binary:full", b, mode="full"), _job("h_header_ndjson", "header.ndjson", b)]
+    if not quick:
+        jobs.append(_job("h_header_binary", "header.binary:short", b, mode="short"))
+    for j in jobs:
+        j["limits"]["max_readinto"] = 80
+    expected = ["header.accept-only-if-valid", "header.cursor==header-length", "header.schema-recorded", "header.refusal-is-RuntimeError",
+                "header.refuse-only-if-invalid", "header.refused-before-any-step-byte", "ndjson-header.accept-only-if-valid",
+                "ndjson-header.one-line-consumed", "ndjson-header.refusal-is-ValueError", "ndjson-header.refuse-only-if-invalid",
+                "ndjson-header.refused-before-any-step-line"]
+    bounds = {"header_prefix": "9 symbolic bytes (magic 5 + version 4)", "schemas": "{own, same-length variant differing in one field type, longer variant, empty}",
+              "expected_schema": "{own, other, None, ''}", "buffer_size": 65536, "ndjson": "header object shape by forking (6 shapes), version symbolic int32, schema in {own, other, longer, missing}"}
+    return _run("c15_py_header", prop, jobs, bounds, expected,
+                extra_assume=["pysym C15/NDJSON: json.loads of the header line is stubbed (returns the solver-chosen object); natively the line is the JSON text of that object",
+                              "pysym C15: schema strings are concrete (finite domain), the 9-byte prefix is fully symbolic"])
+
+
+CONV_TYPES = [[k] for k in ("int8", "uint8", "int16", "uint16", "int32", "uint32", "int64", "uint64", "size", "bool", "float32", "float64",
+                              "complexfloat32", "complexfloat64", "date", "time", "datetime")] + [
+    ["string", ["", "a", "hé€"]],
+    ["optional", ["int32"]], ["optional", ["string", ["", "x"]]], ["optional", ["bool"]],
+    ["vector", ["int16"]], ["vector", ["optional", ["bool"]]], ["fixedvector", ["uint8"], 2],
+    ["map", ["string", ["a", "b"]], ["int8"]], ["map", ["uint8"], ["bool"]], ["map", ["int16"], ["optional", ["uint8"]]],
+    ["enum", ["int32"], [0, 1, 5]], ["enum", ["int32"], [3]], ["flags", [1, 2, 4]], ["flags", [0, 1, 8]],
+    ["union", [["int32"], ["bool"]], True], ["union", [None, ["int32"], ["string", ["", "s"]]], True], ["union", [["int32"], ["float64"]], False],
+    ["union", [None, ["bool"], ["vector", ["uint8"]]], False], ["union", [["string", ["a"]], ["vector", ["bool"]], ["uint8"]], True],
+    ["optional", ["union", [["int8"], ["bool"]], False]], ["vector", ["union", [None, ["int8"], ["bool"]], True]],
+]
+
+
+def c02_py_converters(prop="C02", tier="quick", seed=0, **kw):
+    quick = tier != "thorough"
+    b = 60 if quick else 300
+    maxlen = 2 if quick else 3
+    jobs = [_job("h_conv", "conv:%s" % json.dumps(t, ensure_ascii=True)[:60], b, t=t, maxlen=maxlen) for t in CONV_TYPES]
+    jobs.append(_job("h_json_kinds", "json_kinds", b))
+    jobs.append(_job("h_ndjson_lines", "lines", b, nmax=2 if quick else 3))
+    expected = ["conv.to_json-no-unexpected-exception", "conv.range-error-only-if-out-of-range", "conv.out-of-range-is-rejected",
+                "conv.from_json-no-exception", "conv.from_json(to_json(v))==v", "conv.json-kinds-extracted", "conv.kind-table-matches-runtime",
+                "lines.no-exception", "lines.values==written", "lines.all-lines-consumed-once"]
+    bounds = {"container_len_max": maxlen, "int_leaf_domain": "[-2^64, 2^65]", "enum_members": "<= 3", "floats/dates/flags": "concrete pools",
+              "json text": "object level through the JSON data model (dumps/loads applied to concrete leaves only)"}
+    part = _run("c02_py_converters", prop, jobs, bounds, expected,
+                extra_assume=["pysym C02: json.loads of protocol lines is stubbed in the _read_json_line harness (object chosen by the solver); natively real JSON text is parsed"])
+    # JSON kind per primitive converter, extracted by running the real to_json (consumed by the gosym union-tag check)
+    from harness.py import kernels as HK
+    mods = E.load_modules()
+    nat = E.NatEnv(mods, {})
+    try:
+        part["json_kinds"] = HK.h_json_kinds(nat)
+    except Exception as e:
+        part["json_kinds"] = {}
+        part["inconclusive"].append("json_kinds extraction failed: %r" % (e,))
+    return part
+
+
+FUNCS = {"c01_py_kernels": c01_py_kernels, "c03_py_capacity": c03_py_capacity, "c16_py_truncation": c16_py_truncation, "c17_py_batching": c17_py_batching, "c15_py_header": c15_py_header, "c02_py_converters": c02_py_converters}
 
 
 def main():
